@@ -259,7 +259,13 @@ pub fn cmd(args: &Args) {
             // symlink, to an existing foreign file or dangling - the library must neither follow it
             // nor create its target (an I/O error from the call is fine)
             let mut foreign = foreign;
-            match job % 3 {
+            match job % 4 {
+                3 => {
+                    // (a symlink to an EMPTY foreign file - a lock or marker file: it looks like the
+                    // leftover of an interrupted file creation to anything that follows the link)
+                    foreign.push(Extra::File { name: b"lock".to_vec(), content: Vec::new() });
+                    foreign.push(Extra::Symlink { name: b"wal-00000000000000000009".to_vec(), target: b"lock".to_vec() });
+                }
                 1 => {
                     foreign.push(Extra::File { name: b"archive.bin".to_vec(), content: vec![9u8; 200_000] });
                     foreign.push(Extra::Symlink { name: b"wal-00000000000000000009".to_vec(), target: b"archive.bin".to_vec() });
